@@ -5,7 +5,7 @@
    CStrLit chunk, rendered, is read back by the ECMAScript literal reader as
    exactly the original bytes (from C16). *)
 From Soy Require Import Model.Bytes Model.Num Model.Values Model.Outcome Model.Ast Model.Utf8 Model.JsEscape
-  Generated.Tables Model.JsGen Spec.Codec Proofs.Utf8Proofs Proofs.CodecProofs Proofs.JsGenProofs Proofs.JsGenInv.
+  Generated.Tables Model.JsGen Spec.Codec Proofs.Utf8Proofs Proofs.CodecProofs Proofs.CodecJsPair Proofs.JsGenProofs Proofs.JsGenInv.
 Open Scope N_scope.
 
 (* ---- the header comment ---- *)
@@ -96,16 +96,36 @@ Proof.
 Qed.
 
 (* ---- a literal chunk denotes its string ---- *)
+(* [lit_body s]: the bytes render_chunk writes between the quotes of a literal chunk.  It is the escaper
+   soy calls (Model/JsEscape.v js_escape_soy: text/template's JSEscape, or internal/jsescape once repair
+   C16-jsstr-astral-surrogate-pair is in the tree; Generated/Tables.v jsstr_pair_js is read from
+   soyjs/exec.go).  The statements below are generic in that flag: the BMP-or-printable guard is needed
+   only while the library's escaper is called. *)
+Definition lit_body (s : bstr) : bstr := removelast (tl (render_chunk is_print_tbl (CStrLit 0 s))).
+
+Lemma render_strlit q s : render_chunk is_print_tbl (CStrLit q s) = q :: lit_body s ++ [q].
+Proof. unfold lit_body. cbn [render_chunk tl]. rewrite removelast_last. reflexivity. Qed.
+
+Lemma lit_body_eq s : lit_body s = js_escape_soy jsstr_pair_js is_print_tbl s.
+Proof.
+  unfold lit_body. cbn [render_chunk tl]. rewrite removelast_last.
+  (* Model/JsGen.v names js_escape_soy jsstr_pair_js; a JsGen.v that still names the library's js_escape is
+     the same function exactly while the tree calls the library *)
+  first [reflexivity | unfold jsstr_pair_js; symmetry; apply js_escape_soy_false].
+Qed.
+
 Definition lit_guard (s : bstr) : Prop :=
-  utf8_valid s = true /\ Forall (fun r => r < 65536 \/ is_print_tbl r = true) (runes s).
+  utf8_valid s = true /\ (jsstr_pair_js = true \/ Forall (fun r => r < 65536 \/ is_print_tbl r = true) (runes s)).
 
 Theorem strlit_denotes q s : q = 39 \/ q = 34 -> lit_guard s ->
-  render_chunk is_print_tbl (CStrLit q s) = q :: js_escape is_print_tbl s ++ [q]
-  /\ js_read_literal_q q (js_escape is_print_tbl s) = Some s
-  /\ Forall js_inert (js_escape is_print_tbl s).
+  render_chunk is_print_tbl (CStrLit q s) = q :: lit_body s ++ [q]
+  /\ js_read_literal_q q (lit_body s) = Some s
+  /\ Forall js_inert (lit_body s).
 Proof.
-  intros Hq [Hv Hg]. split; [reflexivity|]. split; [|apply js_escape_inert].
-  apply (jsstr_roundtrip_q is_print_tbl is_print_tbl_ls is_print_tbl_ps q Hq s Hv Hg).
+  intros Hq [Hv Hg]. split; [apply render_strlit|]. rewrite lit_body_eq. split; [|apply js_escape_soy_inert].
+  apply (jsstr_roundtrip_soy_q jsstr_pair_js is_print_tbl is_print_tbl_ls is_print_tbl_ps q Hq); [exact Hv|].
+  destruct Hg as [Hp|Hg]; [apply Forall_forall; intros; left; exact Hp|].
+  eapply Forall_impl; [|exact Hg]. intros r Hr. right. exact Hr.
 Qed.
 
 (* every template-originated string the generator writes, in every generated
@@ -113,24 +133,35 @@ Qed.
 Theorem literals_denote o fuel name body cs : gen_file o fuel name body = Ok cs ->
   forall q s, In (CStrLit q s) cs -> lit_guard s ->
     (q = 39 \/ q = 34)
-    /\ js_read_literal_q q (js_escape is_print_tbl s) = Some s
-    /\ Forall js_inert (js_escape is_print_tbl s).
+    /\ js_read_literal_q q (lit_body s) = Some s
+    /\ Forall js_inert (lit_body s).
 Proof.
   intros E q s Hin Hg. pose proof (gen_chunks_wf _ _ _ _ _ E) as F.
   pose proof (proj1 (Forall_forall _ _) F _ Hin) as Hq. cbn in Hq.
   split; [exact Hq|]. destruct (strlit_denotes q s Hq Hg) as (_ & H2 & H3). auto.
 Qed.
 
-(* the unguarded statement is false of the faithful model: a non-printable
-   astral rune is written with five hex digits (finding js-literal-astral-nonprint-5hex) *)
-Theorem literals_astral_refuted :
+Theorem literals_denote_repaired : jsstr_pair_js = true ->
+  forall o fuel name body cs, gen_file o fuel name body = Ok cs ->
+  forall q s, In (CStrLit q s) cs -> utf8_valid s = true ->
+    (q = 39 \/ q = 34)
+    /\ js_read_literal_q q (lit_body s) = Some s
+    /\ Forall js_inert (lit_body s).
+Proof. intros Hp o fuel name body cs E q s Hin Hv. apply (literals_denote o fuel name body cs E q s Hin). split; [exact Hv|left; exact Hp]. Qed.
+
+(* while the library's escaper is called (jsstr_pair_js = false) the unguarded statement is false of the
+   faithful model: a non-printable astral rune is written with five hex digits (finding
+   js-literal-astral-nonprint-5hex); with internal/jsescape the guard is void (lit_guard's first disjunct) *)
+Theorem literals_astral_refuted : jsstr_pair_js = false ->
   exists s, utf8_valid s = true
             /\ render_chunk is_print_tbl (CStrLit 39 s) = [39; 92; 117; 70; 48; 48; 48; 48; 39]
-            /\ js_read_literal_q 39 (js_escape is_print_tbl s) <> Some s.
+            /\ js_read_literal_q 39 (lit_body s) <> Some s.
 Proof.
-  destruct jsstr_astral_refuted as (s & Hv & He & _ & Hne). exists s. split; [exact Hv|]. split.
-  - cbn [render_chunk]. rewrite He. reflexivity.
-  - exact Hne.
+  intros Hp. destruct jsstr_astral_refuted as (s & Hv & He & _ & Hne). exists s.
+  assert (lit_body s = js_escape is_print_tbl s) as Hb by (rewrite lit_body_eq, Hp; apply js_escape_soy_false).
+  split; [exact Hv|]. split.
+  - rewrite render_strlit, Hb, He. reflexivity.
+  - rewrite Hb. exact Hne.
 Qed.
 
 (* ---- the emission sites of template-originated strings ----
@@ -177,7 +208,7 @@ Proof. reflexivity. Qed.
 Definition lit_guard_b (s : bstr) : bool := utf8_valid s && forallb (fun r => (r <? 65536) || is_print_tbl r) (runes s).
 Lemma lit_guard_b_ok s : lit_guard_b s = true -> lit_guard s.
 Proof.
-  unfold lit_guard_b, lit_guard. intro H. apply andb_prop in H. destruct H as [H1 H2]. split; [exact H1|].
+  unfold lit_guard_b, lit_guard. intro H. apply andb_prop in H. destruct H as [H1 H2]. split; [exact H1|]. right.
   apply Forall_forall. intros r Hr. pose proof (proj1 (forallb_forall _ _) H2 r Hr) as H.
   apply orb_prop in H. destruct H as [H|H]; [left; apply N.ltb_lt; exact H|right; exact H].
 Qed.
